@@ -6,6 +6,7 @@ From Coq Require Import List ZArith Bool.
 From PV Require Import lib.Sx lib.Str lib.Result model.TextNodes model.TextRead.
 From PV Require Import spec.SpecTextXml spec.SpecTextLines spec.SpecTextRead.
 From PV Require Import proofs.TextXmlFacts proofs.TextReadVttFacts proofs.TextReadVttTagFacts proofs.TextReadFacts.
+From PV Require Import proofs.TextReadVttDocFacts.
 Import ListNotations.
 Open Scope Z_scope.
 
@@ -34,6 +35,15 @@ Theorem C04_vtt_voice_tag : forall cls name R f, forallb class_ok cls = true ->
 Proof. exact vtt_voice_tag. Qed.
 Print Assumptions C04_vtt_voice_tag.
 
+(* ---- WebVTT documents: the line loop of _parse returns exactly the cues; cue identifiers, NOTE / STYLE / REGION
+        blocks and header lines never reach a caption, before or after cues, whatever the number of blank lines ---- *)
+Theorem C04_vtt_document_cues : forall fixed header bs,
+  forallb line_plain header = true -> wf_blocks bs = true ->
+  vtt_parse fixed (vtt_document_lines header bs) =
+  map (fun items => vtt_cue_nodes fixed (payload_lines items)) (cues_of bs).
+Proof. exact vtt_document_cues. Qed.
+Print Assumptions C04_vtt_document_cues.
+
 (* ---- SAMI: whatever the spelling, the two parses decode exactly once ---- *)
 Theorem C04_sami_entities_once : forall evs cs, evs_chars evs = Some cs ->
   exists out, sami_stage1 true evs = Ok out /\ content_parse_html out = Some (text_nodes cs).
@@ -56,6 +66,18 @@ Theorem C04_sami_entity_table : forallb (fun kv => xml_text_char (snd kv) &&
     (is_kept (fst kv) || negb ((snd kv =? 38) || (snd kv =? 60) || (snd kv =? 62)))) GenText.sami_name2codepoint = true.
 Proof. exact table_ok. Qed.
 Print Assumptions C04_sami_entity_table.
+
+(* named references are looked up by their exact, case-sensitive name (Eacute is not eacute) *)
+Theorem C04_sami_entity_lookup_exact : forall n v,
+  assoc_str n GenText.sami_name2codepoint = Some v <-> In (n, v) GenText.sami_name2codepoint.
+Proof. exact sami_entity_lookup_exact. Qed.
+Print Assumptions C04_sami_entity_lookup_exact.
+
+(* the entry SAMIParser adds itself: &apos; is the apostrophe *)
+Theorem C04_sami_entity_apos :
+  assoc_str (lit "apos") GenText.sami_name2codepoint = Some 39 /\ ev_chars (EvEntity (lit "apos")) = Some [39].
+Proof. exact sami_entity_apos. Qed.
+Print Assumptions C04_sami_entity_apos.
 
 (* ---- DFXP / SAMI text nodes: wrapped text keeps all of its words ---- *)
 Theorem C04_text_node_keeps_words : forall s t, text_node true s = Some t -> words t = words s.
@@ -116,4 +138,18 @@ Example C04_example_read_sami :
   option_map node_lines
     (read_sami true [ITxt [(38, 1); (108, 0); (116, 0); (59, 0)]; IBr; IOpen 0; ITxt [(60, 2); (98, 0); (62, 4)]; IClose 0])
   = Some [lit "&lt;"; lit "<b>"].
+Proof. vm_compute. reflexivity. Qed.
+
+Example C04_example_entity_case :
+  ev_chars (EvEntity (lit "Eacute")) = Some [201] /\ ev_chars (EvEntity (lit "eacute")) = Some [233] /\
+  ev_chars (EvEntity (lit "Prime")) = Some [8243] /\ ev_chars (EvEntity (lit "prime")) = Some [8242].
+Proof. exact sami_entity_case. Qed.
+
+Example C04_example_vtt_document :
+  let doc := vtt_document_lines [lit "WEBVTT"]
+               [(BOther [lit "NOTE"; lit "a comment"], 1%nat);
+                (BCue (Some (lit "cue-1")) (lit "00:01.000 --> 00:02.000") [ITxt [(97, 0)]; IBr; ITxt [(98, 0)]], 2%nat);
+                (BOther [lit "NOTE between"], 1%nat);
+                (BCue (Some (lit "3")) (lit "00:03.000 --> 00:04.000") [ITxt [(99, 0)]], 0%nat)] in
+  vtt_parse true doc = [[NText (lit "a"); NBreak; NText (lit "b")]; [NText (lit "c")]].
 Proof. vm_compute. reflexivity. Qed.
